@@ -34,8 +34,9 @@ NAN = float("nan")
 VALUES = {
     "RGB": {"dtype": "u1", "ch": 3, 1: (10, 20, 30), 2: (200, 100, 50), "u": []},
     "RGBA": {"dtype": "u1", "ch": 4, 1: (10, 20, 30, 255), 2: (200, 100, 50, 1), "u": [(0, 0, 0, 0), (9, 8, 7, 0)]},
-    "F32": {"dtype": "f4", "ch": 0, 1: (0.0,), 2: (3.5e10,), "u": [(NAN,)]},
-    "F64": {"dtype": "f8", "ch": 0, 1: (0.0,), 2: (1.0000000000001e300,), "u": [(NAN,)]},
+    # "alt2": further concrete representatives of abstract value 2 - infinities are DEFINED values (only NaN is undefined)
+    "F32": {"dtype": "f4", "ch": 0, 1: (0.0,), 2: (3.5e10,), "u": [(NAN,)], "alt2": [(float("inf"),), (float("-inf"),)]},
+    "F64": {"dtype": "f8", "ch": 0, 1: (0.0,), 2: (1.0000000000001e300,), "u": [(NAN,)], "alt2": [(float("inf"),), (float("-inf"),)]},
     "F16x3": {"dtype": "f2", "ch": 3, 1: (0.0, 0.5, 1.0), 2: (2.0, 4.0, 60000.0),
               "u": [(NAN, NAN, NAN), (1.0, NAN, 2.0), (NAN, 0.5, 0.5)]},
     "U8": {"dtype": "u1", "ch": 0, 1: (7,), 2: (200,), "u": [(0,)]},
@@ -58,6 +59,7 @@ class ValueMap(object):
         self.ch = v["ch"]
         self.vals = {k: np.array(v[k], dtype=self.dtype) for k in (1, 2)}
         self.undef = [np.array(u, dtype=self.dtype) for u in v["u"]]
+        self.alt2 = [np.array(u, dtype=self.dtype) for u in v.get("alt2", [])]
         self.kind = "alpha" if name in ("RGBA", "RGB-buffer") else ("nan" if self.dtype.kind == "f" else
                                                                        ("zero" if name != "RGB" else "never"))
         self.cache = {}
@@ -74,7 +76,10 @@ class ValueMap(object):
         # pixels are therefore stored - noted in the evidence, outside what the property states
         und = self.undef if (any(tile) or self.name != "F16x3") else self.undef[:1]
         for p, t in enumerate(tile):
-            a[p] = self.vals[t] if t else und[(p + salt) % len(und)]
+            if t == 2 and self.alt2 and (p + salt) % 3 == 1:
+                a[p] = self.alt2[((p + salt) // 3) % len(self.alt2)]
+            else:
+                a[p] = self.vals[t] if t else und[(p + salt) % len(und)]
         return a.reshape(self.shape(h, w))
 
     def project(self, arr):
@@ -98,6 +103,8 @@ class ValueMap(object):
         out = np.full(a.shape[0], -1, dtype=np.int64)
         for k in (1, 2):
             out[(a == self.vals[k]).all(axis=1) & ~und] = k
+        for alt in self.alt2:
+            out[(a == alt).all(axis=1) & ~und] = 2
         out[und] = 0
         r = tuple(int(x) for x in out)
         if len(self.cache) < 500000:
@@ -435,6 +442,9 @@ def replay_files(args):
     stats = {"calls": 0, "writes": 0, "reads": 0, "bad": 0}
     d = os.path.join(basedir, "%s-%d" % (fmt, part))
     pio = PyramidIO(d, default_format=fmt)
+    # a second handle on the same pyramid whose DEFAULT format differs from the tiles' format: writes that go through the
+    # read-modify-write interface use it with an explicit format= argument
+    pio_alt = PyramidIO(d, default_format=("png" if fmt != "png" else "npy"))
     pos = Pos(2, 1, 3)
     path = pio.tile_path(pos)
     ABSENT = ("none", 0)
@@ -513,10 +523,18 @@ def replay_files(args):
         img = Image.from_array(arr)
         stats["calls"] += 1
         stats["writes"] += 1
+        # every fourth write goes through update_image (fill the whole buffer from the tile) instead of write_image, when the
+        # buffer the interface hands out can hold the tile's mode
+        via_update = (salt % 4 == 3 and call[1] != "RGB" and state["cur"][0] == call[1])   # (a missing tile would come back as a 256x256 buffer)
         try:
-            pio.write_image(pos, img)
+            if via_update:
+                stats["writes_via_update_image"] = stats.get("writes_via_update_image", 0) + 1
+                with pio_alt.update_image(pos, default="masked", masked_mode=img.mode, format=fmt) as buf:
+                    img.fill_into_maskable_buffer(buf, slice(None), slice(None), slice(None), slice(None))
+            else:
+                pio.write_image(pos, img)
         except Exception as ex:  # noqa
-            bad("file:%s:write" % fmt, "write_image of a %s tile %s raised %r" % (call[1], list(tile), ex), hist(call))
+            bad("file:%s:write" % fmt, "%s of a %s tile %s raised %r" % ("update_image" if via_update else "write_image", call[1], list(tile), ex), hist(call))
             return
         exists = os.path.exists(path)
         if fmode == "none" and exists:
@@ -533,7 +551,9 @@ def replay_files(args):
             state["written"] = None
             return
         state["cur"] = (fmode, fcode)
-        state["written"] = arr if fmode != "none" else None
+        # (through update_image the concrete representation of UNDEFINED pixels is the buffer's, not the source's: only the
+        # abstract read-back is compared then)
+        state["written"] = arr if (fmode != "none" and not via_update) else None
         do_read(("readnone", "none", 0))
 
     keys = sorted(table)
